@@ -1,4 +1,5 @@
 """C03 - a subscriber never observes an uncommitted, torn or half-written frame."""
+import os
 import random
 
 from props import c02
@@ -6,23 +7,33 @@ from vlib.term import to_coq, z
 
 ID = 'C03'
 PROP_FILE = 'Props/C03.v'
-EVAL_FILES = ['Oracle/C03Oracle.v']
+EVAL_FILES = ['Oracle/C03Oracle.v', 'Oracle/C03XOracle.v', 'Model/ClaimThreads.v']
 CRATES = ['c03']
 MODES = ['debug']
 IMPORTS = ('Require Import V.Base.MachineInt V.Model.LogBase V.Model.Descriptor V.Model.Sched V.Model.AppenderThreads '
-           'V.Model.ReaderThreads V.Oracle.C02Oracle V.Oracle.C03Oracle.')
+           'V.Model.ReaderThreads V.Model.ExclThreads V.Model.PollThreads V.Model.ClaimThreads V.Oracle.C02Oracle V.Oracle.C03Oracle '
+           'V.Oracle.C03XOracle. Require V.Model.Reader.')
 PER_CASE_TIMEOUT = 5.0
 RULE = ('a polling subscriber (Image::poll through hook H3 when the repository has it, else term_reader::read through a copy of '
         'Image::poll) with 1-2 publishers x 1-3 messages (unfragmented, fragmented, padding at the term end, rotation) on 1 KiB / 2 KiB '
         'terms under the deterministic H2 scheduler: random schedules, every schedule with at most one pre-emption of the small '
         'configurations, and - the crash points - every prefix length of a single publisher\'s access sequence after which the '
-        'publisher is stopped for ever while the subscriber keeps polling; plus exclusive-publisher and try_claim/commit/abort '
-        'threads (real ExclusivePublication / BufferClaim, judged by the oracle only - no thread machine). Compared: trace (accessor, region, offset, length, operands, '
-        'value read), per-thread results, final dump, subscriber position, fragments handed to the handler (offset, length, flags, bytes). '
-        'The oracle re-walks the final log, checks the delivered fragments are a prefix of its committed data frames with identical bytes, '
-        'the position rule, no write after a commit, and runs the vector-clock race detector (classes from the regenerated ordering table) '
-        'over the trace. Non-trivial: a reader and a publisher are interleaved (or the publisher is stopped mid-append); distinct = '
-        'distinct (geometry, messages, schedule, crash points)')
+        'publisher is stopped for ever while the subscriber keeps polling; exclusive-publisher and try_claim/commit/abort '
+        'threads (kinds excl, claim). Kinds x*: an EXCLUSIVE publisher (offer_part of unfragmented / fragmented messages, try_claim + '
+        'payload + BufferClaim::set_flags / set_header_type (values 0 .. 0xFFFF) / set_reserved_value + commit or abort, term-end padding, '
+        'rotation) or SHARED claimants (Publication::try_claim, the same claimant actions, next to a shared publisher or a second claimant) '
+        'against a subscriber that polls with EVERY flavour - poll, bounded_poll, controlled_poll, bounded_controlled_poll, controlled_peek '
+        '(+ set_position), block_poll - with handler scripts (Continue / Abort / Break / Commit) and bounds before, at and beyond the '
+        'position: every crash point of the exclusive publisher (stopped after k accesses, k = 0 .. all, the flavour polled first rotating '
+        'with k), one-pre-emption schedules, random schedules, a third with a crash point. For every kind the model (thread machines of '
+        'Model/AppenderThreads, ReaderThreads, ExclThreads, PollThreads, ClaimThreads) runs the same schedule. Compared: trace (accessor, '
+        'region, offset, length, operands, value read), per-thread results, final dump, subscriber position, fragments handed to the '
+        'handler (offset, length, flags, bytes). The oracle re-walks the final log and checks: delivered = the committed data frames of the '
+        'stream in order with identical bytes (kinds x*: repetitions after Abort / peek allowed, nothing else; an aborted claim - identified '
+        'by the position try_claim returned - is padding in the log and never delivered, whatever its claimant wrote into the header), the '
+        'position rule, no write after a commit, the vector-clock race detector (classes from the regenerated ordering table) over the '
+        'trace, nobody panicked. Non-trivial: a reader and a publisher are interleaved (or the publisher is stopped mid-append); distinct = '
+        'distinct (geometry, items, polls, schedule, crash points)')
 ASSUMPTIONS = [
     'interleavings are sequentially consistent at the granularity of the accesses hook H2 reports; for hardware reordering the '
     'happens-before result is combined with the DRF-SC argument, which is assumed, not proved',
@@ -30,6 +41,11 @@ ASSUMPTIONS = [
     '(the classification is computed from the regenerated fence table, the Rust-level status of fence + plain access is named, not resolved)',
     'media driver contract: the partition the subscriber reads is neither zeroed nor rotated into while it is being read',
     'one subscriber position counter per image (one reader thread per case)',
+    'theorems C03_race_free / C03_excl_*: no partition is used by two generations (runs within generations n0 .. n0+2: the driver has '
+    'cleaned nothing, so nothing may be reused); the generated cases keep the limit <= (n0+2) * term length',
+    'theorems for the six poll flavours are about the exclusive publisher; against shared publishers the theorems cover Image::poll, '
+    'the other flavours and the shared claimant (Publication::try_claim) are covered by the model comparison and the oracle only',
+    'block_poll: block_length_limit small enough that term_offset + limit does not overflow i32 (no debug-build panic modelled)',
     'the hook reports the header burst of HeaderWriter::write as the whole 32-byte header; its real extent is taken from the '
     'assignments in the source (K1 header_burst_fields)',
 ]
@@ -48,16 +64,105 @@ def thread_expr(t):
     raise ValueError(t)
 
 
+def _item_line(it, shared):
+    if not it.get('claim'):
+        return '%dx%d' % (it['k'], it['len'])
+    out = '%d%s%d' % (it['k'], 'x' if shared else 'c', it['len'])
+    for key in ('F', 'T', 'R'):
+        if it.get(key) is not None:
+            out += '%s%d' % (key, it[key])
+    return out + ('a' if it.get('abort') else '')
+
+
+def _poll_line(p):
+    k = p[0]
+    if k == 'p':
+        return 'p'
+    if k == 'b':
+        return 'b%d' % p[1]
+    if k == 'c':
+        return 'c' + p[1]
+    if k in ('d', 'k'):
+        return '%s%d/%s' % (k, p[1], p[2])
+    return 'l%d' % p[1]
+
+
+def _items(t):
+    """items of an X / Q thread in the new representation (old cases carry 'msgs')"""
+    if 'items' in t:
+        return t['items']
+    if t['k'] == 'X':
+        return [{'k': k, 'len': l, 'claim': False} for k, l in t['msgs']]
+    return [{'k': m[0], 'len': m[1], 'claim': True, 'abort': bool(m[2])} for m in t['msgs']]
+
+
 def _thread_line(t):
     if t['k'] == 'P':
         return 'T=P:%d:%s' % (t['budget'], ','.join('%dx%d' % (k, l) for k, l in t['msgs']))
     if t['k'] == 'X':
-        return 'T=X:%d:%s' % (t['budget'], ','.join('%dx%d' % (k, l) for k, l in t['msgs']))
+        return 'T=X:%d:%s' % (t['budget'], ','.join(_item_line(i, False) for i in _items(t)))
     if t['k'] == 'Q':
-        return 'T=Q:%d:%s' % (t['budget'], ','.join('%dx%d%s' % (k, l, 'a' if a else '') for k, l, a in t['msgs']))
+        return 'T=Q:%d:%s' % (t['budget'], ','.join(_item_line(i, True) for i in _items(t)))
     if t['k'] == 'E':
         return 'T=E:%s' % ','.join('%s%d' % (o, v) for o, v in t['ops'])
+    if t['k'] == 'V':
+        return 'T=V:%d:%s' % (t['limit'], ','.join(_poll_line(p) for p in t['polls']))
     return 'T=R:%d:%d' % (t['polls'], t['limit'])
+
+
+_ACT = {'C': 'Reader.Continue', 'A': 'Reader.Abort', 'B': 'Reader.Break', 'M': 'Reader.Commit'}
+
+
+def _script(sc):
+    return '[' + '; '.join(_ACT[ch] for ch in sc) + ']'
+
+
+def _sets_expr(it):
+    out = []
+    if it.get('F') is not None:
+        out.append('SFlags %s' % z(it['F']))
+    if it.get('T') is not None:
+        out.append('SType %s' % z(it['T']))
+    if it.get('R') is not None:
+        out.append('SResv %s' % z(it['R']))
+    return '[' + '; '.join(out) + ']'
+
+
+def xthread_expr(c, t):
+    """thread of the system with every kind of thread (Model/ClaimThreads.v)"""
+    if t['k'] in ('P', 'E', 'R'):
+        return 'xold (%s)' % thread_expr(t)
+    if t['k'] == 'X':
+        its = []
+        for it in _items(t):
+            pay = 'payload %s %s' % (z(it['k']), z(it['len']))
+            if it.get('claim'):
+                its.append('XClaim (%s) %s %s' % (pay, _sets_expr(it), 'true' if it.get('abort') else 'false'))
+            else:
+                its.append('XOffer (%s)' % pay)
+        return 'xpub %s %d [%s]' % (cfg_expr(c), t['budget'], '; '.join(its))
+    if t['k'] == 'Q':
+        its = ['(payload %s %s, %s, %s)' % (z(it['k']), z(it['len']), _sets_expr(it), 'true' if it.get('abort') else 'false')
+               for it in _items(t)]
+        return 'xq %s %d [%s]' % (cfg_expr(c), t['budget'], '; '.join(its))
+    if t['k'] == 'V':
+        ps = []
+        for p in t['polls']:
+            k = p[0]
+            if k == 'p':
+                ps.append('FPoll')
+            elif k == 'b':
+                ps.append('FBounded %s' % z(p[1]))
+            elif k == 'c':
+                ps.append('FCtrl %s' % _script(p[1]))
+            elif k == 'd':
+                ps.append('FBCtrl %s %s' % (z(p[1]), _script(p[2])))
+            elif k == 'k':
+                ps.append('FPeek %s %s' % (z(p[1]), _script(p[2])))
+            else:
+                ps.append('FBlock %s' % z(p[1]))
+        return 'xv %s [%s]' % (z(t['limit']), '; '.join(ps))
+    raise ValueError(t)
 
 
 def impl_line(c):
@@ -72,20 +177,43 @@ def impl_line(c):
     return ' '.join(parts)
 
 
+def is_x(c):
+    """a case of the system with exclusive publisher / claimants / poll flavours"""
+    return any(t['k'] in ('X', 'Q', 'V') for t in c['threads'])
+
+
 def model_expr(c, mode):
-    if any(t['k'] in ('X', 'Q') for t in c['threads']):
-        return None        # exclusive publisher / try_claim: no thread machine; the oracle alone judges the run
+    if is_x(c):
+        return 'run_casex %s %s [%s] %s %s' % (cfg_expr(c), z(c['limit']), '; '.join(xthread_expr(c, t) for t in c['threads']),
+                                               c02.coq_nat_list(c['sched']), c02.stops_expr(c))
     return 'run_case3 %s %s [%s] %s %s' % (cfg_expr(c), z(c['limit']), '; '.join(thread_expr(t) for t in c['threads']),
                                            c02.coq_nat_list(c['sched']), c02.stops_expr(c))
 
 
 def readers(c):
-    return [i for i, t in enumerate(c['threads']) if t['k'] == 'R']
+    return [i for i, t in enumerate(c['threads']) if t['k'] in ('R', 'V')]
+
+
+def claims_expr(c):
+    out = []
+    for i, t in enumerate(c['threads']):
+        if t['k'] in ('X', 'Q'):
+            out.append('(%d, [%s])' % (i, '; '.join('(%s, %s)' % (z(it['len']), 'true' if it.get('abort') else 'false')
+                                                     for it in _items(t))))
+    return '[' + '; '.join(out) + ']'
+
+
+def new_oracle(c):
+    """the cases written for the exclusive / claim / flavour machines are judged by holds_C03x; the older oracle-only kinds
+    (excl, claim) keep holds_C03"""
+    return c.get('kind', '').startswith('x')
 
 
 def oracle_expr(c, mode, obs):
     if obs[0] != 'tuple':
         return 'false'
+    if new_oracle(c):
+        return 'holds_C03x %s [%s] %s %s' % (cfg_expr(c), '; '.join(str(r) for r in readers(c)), claims_expr(c), to_coq(obs))
     return 'holds_C03 %s [%s] %s' % (cfg_expr(c), '; '.join(str(r) for r in readers(c)), to_coq(obs))
 
 
@@ -101,7 +229,25 @@ def known_class(c, mode, obs):
     return c02.known_class(c, mode, obs)
 
 
+def _nfrags(c, l):
+    mp = c['mtu'] - 32
+    return 1 if l <= mp else (l + mp - 1) // mp
+
+
 def steps_upper(c, t):
+    if t['k'] in ('X', 'Q') and 'items' in t:
+        n = 0
+        for it in t['items']:
+            n += 10 + 6 * _nfrags(c, it['len'])
+        return n + t['budget'] * 4 + 8
+    if t['k'] == 'V':
+        frames = 0
+        for x in c['threads']:
+            if x['k'] in ('X', 'Q'):
+                frames += sum(_nfrags(c, it['len']) for it in _items(x)) + 1
+            elif x['k'] == 'P':
+                frames += sum(_nfrags(c, m[1]) for m in x['msgs']) + 1
+        return len(t['polls']) * 4 + 8 * frames + 6
     if t['k'] in ('X', 'Q'):
         mp = c['mtu'] - 32
         n = 0
@@ -227,6 +373,157 @@ def generate(rng, tier):
         if i % 3 == 0:
             c['stops'] = [None] * len(c['threads'])
             c['stops'][0] = rng.randrange(0, steps_upper(c, c['threads'][0]))
+        cases.append(c)
+    # (5) exclusive publisher / claimants with setters / all poll flavours: thread machines, model comparison, holds_C03x
+    cases += x_cases(random.Random(rng.randrange(2**30)), big)
+    only = os.environ.get('C03_ONLY')          # development aid: run the kinds with this prefix only
+    if only:
+        cases = [c for c in cases if c['kind'].startswith(only)]
+    return cases
+
+
+# ----------------------------------------------------------------------------------------------
+# the exclusive publisher, claimants with the BufferClaim setters, every poll flavour (kinds x...)
+
+def have_h3():
+    repo = os.environ.get('VERIF_REPO', '/repo')
+    try:
+        return 'fn create_for_verif' in open(os.path.join(repo, 'src', 'image.rs')).read()
+    except OSError:
+        return False
+
+
+def all_flavours(c, rot=0, script='CC'):
+    far = (c['n0'] + 3) * (1 << c['bits'])
+    fl = [['d', far, script], ['k', far, script], ['l', 1 << c['bits']], ['c', script], ['b', far], ['p']]
+    rot %= len(fl)
+    return fl[rot:] + fl[:rot]
+
+
+def viewer(c, polls, limit=10):
+    if have_h3():
+        return {'k': 'V', 'limit': limit, 'polls': polls}
+    return {'k': 'R', 'polls': len(polls), 'limit': limit}          # without hook H3 only Image::poll (through the copy) can run
+
+
+def x_small_cases():
+    """single exclusive publisher: (a) fragmented offer, claim with setters committed, claim with a wide type aborted,
+    (b) offers that trip the term end (padding, rotation) and a claim in the next term"""
+    out = []
+    for (bits, mtu, off_back, n0, init, items) in [
+            (10, 64, 0, 0, 5, [
+                {'k': 1, 'len': 40, 'claim': False},
+                {'k': 2, 'len': 20, 'claim': True, 'F': 7, 'T': 258, 'R': -5},
+                {'k': 3, 'len': 8, 'claim': True, 'T': 65535, 'abort': True},
+                {'k': 4, 'len': 0, 'claim': True}]),
+            (10, 96, 96, 1, 2**31 - 2, [
+                {'k': 1, 'len': 20, 'claim': True, 'abort': True, 'F': 255},
+                {'k': 2, 'len': 33, 'claim': False},
+                {'k': 3, 'len': 64, 'claim': True, 'R': 2**40 + 3}]),
+    ]:
+        tl = 1 << bits
+        c = {'kind': 'xsmall', 'bits': bits, 'mtu': mtu, 'init': init, 'n0': n0, 'off0': tl - off_back if off_back else 0,
+             'limit': (n0 + 2) * tl, 'threads': [{'k': 'X', 'budget': len(items) + 2, 'items': items}], 'sched': [], 'stops': []}
+        out.append(c)
+    return out
+
+
+def rand_items(rng, c, n, shared):
+    mp = c['mtu'] - 32
+    tl = 1 << c['bits']
+    items = []
+    for j in range(n):
+        claim = shared or rng.random() < 0.6
+        if claim:
+            it = {'k': j + 1, 'len': rng.choice([0, 1, 8, 20, mp - 1, mp, mp, mp + 1 if rng.random() < 0.1 else mp]), 'claim': True}
+            if rng.random() < 0.4:
+                it['F'] = rng.choice([0, 7, 64, 128, 192, 255])
+            if rng.random() < 0.5:
+                it['T'] = rng.choice([0, 1, 2, 255, 256, 258, 0xFF00, 0xFFFF])
+            if rng.random() < 0.3:
+                it['R'] = rng.choice([0, 1, -1, 2**40 + 3, -2**63, 2**63 - 1])
+            if rng.random() < 0.4:
+                it['abort'] = True
+        else:
+            it = {'k': j + 1, 'len': rng.choice([0, 1, 20, 40, 64, 96, tl // 8]), 'claim': False}
+        items.append(it)
+    return items
+
+
+def rand_polls(rng, c, n):
+    tl = 1 << c['bits']
+    start = c['n0'] * tl + c['off0']
+    bounds = [start - 64, start, start + 32, start + 96, start + 160, (c['n0'] + 1) * tl, (c['n0'] + 3) * tl, 2**40]
+    scripts = ['', 'C', 'A', 'B', 'M', 'CA', 'MC', 'CMA', 'CCB', 'MMM', 'CAC']
+    out = []
+    for _ in range(n):
+        k = rng.choice('pbcdkl')
+        if k == 'p':
+            out.append(['p'])
+        elif k == 'b':
+            out.append(['b', rng.choice(bounds)])
+        elif k == 'c':
+            out.append(['c', rng.choice(scripts)])
+        elif k in 'dk':
+            out.append([k, rng.choice(bounds), rng.choice(scripts)])
+        else:
+            out.append(['l', rng.choice([32, 64, 96, 256, tl])])
+    return out
+
+
+def x_cases(rng, big):
+    cases = []
+    # (x1) crash points of the exclusive publisher: stopped for ever after k accesses, k = 0 .. all; the subscriber then polls
+    #      with every flavour (the flavour that comes first rotates with k)
+    for c in x_small_cases():
+        ub = steps_upper(c, c['threads'][0])
+        for k in range(0, ub + 1):
+            for style in (range(2) if big else [k % 2]):
+                d = dict(c)
+                d['kind'] = 'xcrash'
+                d['threads'] = c['threads'] + [viewer(c, all_flavours(c, k + style * 3, ['CC', 'MC', 'CA', 'BC'][k % 4]), [10, 1][style])]
+                d['stops'] = [k, None]
+                rub = steps_upper(d, d['threads'][1])
+                d['sched'] = [0] * k + [1] * rub if style == 0 else random_schedule(rng, d)
+                cases.append(d)
+    # (x2) one pre-emption: the publisher runs i accesses, the subscriber polls once with each flavour, both finish
+    for c in x_small_cases():
+        ub = steps_upper(c, c['threads'][0])
+        for i in range(0, ub + 1, 1 if big else 2):
+            d = dict(c)
+            d['kind'] = 'xpreempt'
+            d['threads'] = c['threads'] + [viewer(c, all_flavours(c, i) + all_flavours(c, i + 2, 'M'))]
+            d['sched'] = [0] * i + [1] * (steps_upper(d, d['threads'][1]) // 2) + [0] * ub
+            cases.append(d)
+    # (x3) random: exclusive publisher (offers and claims with setters, commit / abort) or shared claimants (+ a shared publisher),
+    #      a subscriber with random flavours, bounds and handler scripts; a third with a crash point
+    for i in range(3000 if big else 130):
+        bits = rng.choice([10, 10, 11])
+        tl = 1 << bits
+        mtu = rng.choice([64, 96, 256])
+        n0 = rng.choice([0, 1, 2])
+        c = {'kind': 'xrand', 'bits': bits, 'mtu': mtu, 'init': rng.choice([5, -3, 2**31 - 2, -2**31]), 'n0': n0,
+             'off0': rng.choice([0, 0, tl - 64, tl - 96, tl - 160, tl - 256]), 'limit': (n0 + 2) * tl, 'threads': [], 'sched': [],
+             'stops': []}
+        if rng.random() < 0.05:
+            c['limit'] = c['n0'] * tl + c['off0']            # back pressure
+        nm = rng.choice([1, 2, 3, 4])
+        if i % 2 == 0:
+            c['threads'].append({'k': 'X', 'budget': nm + 2, 'items': rand_items(rng, c, nm, False)})
+        else:
+            c['kind'] = 'xqrand'
+            c['threads'].append({'k': 'Q', 'budget': nm + 2, 'items': rand_items(rng, c, nm, True)})
+            r = rng.random()
+            if r < 0.3:
+                c['threads'].append({'k': 'P', 'budget': 3, 'msgs': [[9, rng.choice([10, 40, 70])]]})
+            elif r < 0.5:
+                c['threads'].append({'k': 'Q', 'budget': 3, 'items': rand_items(rng, c, 2, True)})
+        c['threads'].append(viewer(c, rand_polls(rng, c, rng.choice([2, 3, 4, 6])), rng.choice([1, 2, 10, 10])))
+        c['sched'] = random_schedule(rng, c)
+        if i % 3 == 0:
+            c['stops'] = [None] * len(c['threads'])
+            c['stops'][0] = rng.randrange(0, steps_upper(c, c['threads'][0]))
+            c['kind'] += '-crash'
         cases.append(c)
     return cases
 
